@@ -57,6 +57,7 @@ func Universe() []UVal {
 		specU("maxint64", SInt(math.MaxInt64)),
 		specU("minint64", SInt(math.MinInt64)),
 		specU("2^31", SInt(1<<31)),
+		specU("97", SInt(97)),
 		specU("int8(-128)", withRep(SInt(-128), "int8")),
 		specU("int16(1)", withRep(SInt(1), "int16")),
 		specU("int32(2)", withRep(SInt(2), "int32")),
@@ -94,6 +95,8 @@ func Universe() []UVal {
 		specU(`"ws-only"`, SStr(" \t\n\u00a0\u3000")),
 		specU(`"nul\x00ff"`, SStr("a\x00b\xffc")),
 		specU("[]", SArr()),
+		specU("[]string(nil)", withRep(SArr(), "nilslice")),
+		specU("[]string{}", withRep(SArr(), "emptystrings")),
 		specU("[3,1,2]", SArr(SInt(3), SInt(1), SInt(2))),
 		specU("[1]", SArr(SInt(1))),
 		specU("[nil,1,nil]", SArr(SNil(), SInt(1), SNil())),
